@@ -788,7 +788,10 @@ def run(ctx):
     ctx.assumptions += ["sendmmsg/recvmmsg called with vlen >= 1 return a value in 1..vlen or -1 (Linux)",
                         "callbacks act on their own handle only; no API calls on a handle after uv_close; send_cb is not NULL",
                         "datagrams already read by recvmmsg are dropped when a chunk callback stops receiving (accepted: the user stopped)"]
-    lean_ok = ctx.require_lean(["UvModel.Props.C10"])
+    ctx.trusted += ["tools/gen_lean.py (clang AST -> Lean for the loop-free kernels udp_prep_pkt, udp_check_before_send, udp_try_send(_api), udp_try_send2(_api)) and UvModel/CSem.lean"]
+    # Tie A: the family switch of uv__udp_prep_pkt and the try_send entry checks regenerated from /repo; GenEq/C10 re-proves them = the model's
+    gen_ok = ctx.gen_lean(need=["C10"])
+    lean_ok = ctx.require_lean(["UvModel.GenEq.C10", "UvModel.Props.C10"]) and gen_ok
     uexe = ctx.harness("c10_unit", ["harness/c10_unit.c"], link_lib=True)
     sexe = ctx.harness("c10_sim", ["harness/c10_sim.c"], link_lib=True)
     if ctx.replay:
